@@ -82,6 +82,11 @@ T["C15"] = ("trace monitor (optimizer step hooks, zero_grad wrapper, simulate ta
             "hedge lists, initial states and stale gradients yields an event trace that must be accepted by the protocol automaton (train mode, zero_grad, simulate(n, s), "
             "criterion under grad, backward, exactly one step changing parameters, n_times validation passes without grad in eval mode), and the parameters and history must be "
             "bit-identical to an explicit public-API loop under the same seed.", "4 C15 / appendix C")
+T["C10"] = ("pathwise exact-solution monitor with a recording engine + streaming large-sample moment monitors with two-stage z-tests",
+            "Brownian / geometric Brownian paths (and Merton / Kou at zero intensity) are compared step by step with the exact SDE solution built from the normals a recording engine "
+            "handed out; for every model, through generators and instruments, means and variances (of the value or its logarithm) at three time indices over 1e5-4e6 paths are compared "
+            "with closed-form moments for parameter configurations away from the defaults (both CIR QE branches and the band around the switch, Kou with p_up != 0.5, Vasicek from "
+            "several starting points, rough Bergomi at 1y and other horizons). Statistical: resolution ~0.3% (quick) / 0.1% (thorough). Two known findings.", "4 C10")
 NA = {}
 
 def main():
